@@ -7,7 +7,7 @@ ROOT = os.path.dirname(os.path.dirname(os.path.abspath(__file__)))
 sys.path.insert(0, ROOT)
 import props as REG
 sd = os.path.join(ROOT, "seeded")
-ids = sys.argv[1:] or sorted(d for d in os.listdir(sd) if os.path.isdir(os.path.join(sd, d)))
+ids = sys.argv[1:] or sorted(d for d in os.listdir(sd) if os.path.isdir(os.path.join(sd, d)) and not d.startswith("_"))
 res_path = os.path.join(sd, "results.json")
 results = json.load(open(res_path)) if os.path.exists(res_path) else {}
 for mid in ids:
